@@ -367,3 +367,549 @@ Section Core.
     parse decompress c f1 body = parse decompress c f2 body.
   Proof. intros. rewrite <- !whole_parse by assumption. reflexivity. Qed.
 End Core.
+
+(* ---------- builder: consecutive indices ---------- *)
+Fixpoint ndata (ts : list tev) : N :=
+  match ts with
+  | [] => 0
+  | TData _ _ :: r => 1 + ndata r
+  | TEnd _ :: r => ndata r
+  end.
+
+Lemma ndata_app a b : ndata (a ++ b) = ndata a + ndata b.
+Proof. induction a as [|[e l|ct] a IH]; cbn [app ndata]; lia. Qed.
+
+Lemma number_app req : forall a k b, number req k (a ++ b) = number req k a ++ number req (k + ndata a) b.
+Proof.
+  induction a as [|[e l|ct] a IH]; intros k b; cbn [app number ndata].
+  - rewrite N.add_0_r. reflexivity.
+  - rewrite IH. replace (k + (1 + ndata a)) with (k + 1 + ndata a) by lia. reflexivity.
+  - rewrite IH. reflexivity.
+Qed.
+
+Definition cnt (req : bool) (b : bld) : N := if req then b_req_count b else b_resp_count b.
+
+Lemma b_add_all_app req b a1 a2 : b_add_all req b (a1 ++ a2) = b_add_all req (b_add_all req b a1) a2.
+Proof. unfold b_add_all. apply fold_left_app. Qed.
+
+Lemma b_add_all_live req : forall ts b, b_live b = true ->
+  b_live (b_add_all req b ts) = true /\
+  b_events (b_add_all req b ts) = b_events b ++ number req (cnt req b) ts /\
+  cnt req (b_add_all req b ts) = cnt req b + ndata ts.
+Proof.
+  induction ts as [|t ts IH]; intros b L.
+  - cbn. rewrite app_nil_r, N.add_0_r. auto.
+  - cbn [b_add_all fold_left]. fold (b_add_all req (b_add_tev req b t) ts).
+    assert (L' : b_live (b_add_tev req b t) = true).
+    { unfold b_add_tev. rewrite L. cbn. destruct t; [destruct req|]; reflexivity. }
+    destruct (IH _ L') as (I1 & I2 & I3). split; [exact I1|]. rewrite I2, I3.
+    unfold b_add_tev, cnt. rewrite L. cbn [negb].
+    destruct t as [e l|ct]; [destruct req|]; cbn [b_events b_req_count b_resp_count number ndata];
+      rewrite <- ?app_assoc; cbn [app]; (split; [reflexivity|lia]).
+Qed.
+
+Lemma b_add_all_dead req ts b : b_live b = false -> b_add_all req b ts = b.
+Proof.
+  intros L. induction ts as [|t ts IH]; [reflexivity|].
+  cbn [b_add_all fold_left]. unfold b_add_tev at 2. rewrite L. cbn [negb]. exact IH.
+Qed.
+
+Lemma count_end_app a b : count_end (a ++ b) = (count_end a + count_end b)%nat.
+Proof. unfold count_end. rewrite filter_app, app_length. reflexivity. Qed.
+
+Lemma count_end_number req ts k : count_end (number req k ts) = O.
+Proof. revert k. induction ts as [|[e l|ct] ts IH]; intros k; cbn [number]; [reflexivity|apply IH|apply IH]. Qed.
+
+Section Wrap.
+  Variable decompress : bytes -> option bytes.
+  Variable c : cfg.
+  Notation req := (c_req c).
+
+  (* ---------- a run of traces = feed ---------- *)
+  Lemma do_trace_all : forall chunks s,
+    fold_left (do_trace decompress c) chunks s =
+    let (d, evs) := feed decompress c (w_dt s) chunks in
+    mk_ws (w_closed s) d (b_add_all req (w_b s) evs).
+  Proof.
+    induction chunks as [|ch rest IH]; intros s.
+    - cbn. destruct s; reflexivity.
+    - cbn [fold_left feed]. rewrite IH. unfold do_trace.
+      destruct (trace decompress c (w_dt s) ch) as [d1 e1]. cbn [w_dt w_b w_closed].
+      destruct (feed decompress c d1 rest) as [d2 e2]. rewrite b_add_all_app. reflexivity.
+  Qed.
+
+  (* ---------- finishing after any chunk list gives the expected events ---------- *)
+  Lemma finish_events chunks err :
+    b_events (w_b (try_finish c (fold_left (do_trace decompress c) chunks ws_init) err)) =
+    expected_events decompress c (concat chunks) err.
+  Proof.
+    rewrite do_trace_all. cbn [ws_init w_dt w_b w_closed].
+    assert (K : forall d evs, feed decompress c dt_init chunks = (d, evs) ->
+                evs ++ snd (emit_unfinished d) = parse_body decompress c (concat chunks)).
+    { intros d evs F. unfold parse_body. destruct (c_stream c) eqn:Hs.
+      - rewrite feed_concat in F by (auto using wf_init).
+        rewrite <- whole_parse by lia. unfold whole. rewrite F. reflexivity.
+      - rewrite feed_unary in F by exact Hs. injection F; intros; subst. cbn.
+        destruct (concat chunks) as [|x r]; reflexivity. }
+    destruct (feed decompress c dt_init chunks) as [d evs]. specialize (K d evs eq_refl).
+    unfold try_finish. cbn [w_closed w_dt w_b].
+    destruct (emit_unfinished d) as [d' evs2]. cbn [snd] in K. cbn [w_b].
+    rewrite <- b_add_all_app.
+    destruct (b_add_all_live req (evs ++ evs2) bld_init eq_refl) as (L & Ev & _).
+    unfold b_add_end. rewrite L. cbn [negb b_events]. rewrite Ev. cbn [bld_init b_events app].
+    unfold expected_events. rewrite K. unfold cnt. destruct req; reflexivity.
+  Qed.
+
+  (* ---------- the reader ---------- *)
+  Definition reads (chunks : list bytes) : list rop := map (fun ch => RRead ch IoNone) chunks.
+  Definition closes (fl : list bool) : list rop := map RClose fl.
+
+  Lemma reader_run_app : forall a s b,
+    reader_run decompress c s (a ++ b) =
+    let (s1, r1) := reader_run decompress c s a in
+    let (s2, r2) := reader_run decompress c s1 b in (s2, r1 ++ r2).
+  Proof.
+    induction a as [|op a IH]; intros s b.
+    - cbn. destruct (reader_run decompress c s b); reflexivity.
+    - cbn [app reader_run]. destruct (reader_step decompress c s op) as [s1 r].
+      rewrite IH. destruct (reader_run decompress c s1 a) as [s2 rs].
+      destruct (reader_run decompress c s2 b); reflexivity.
+  Qed.
+
+  Lemma reader_reads : forall chunks s,
+    fst (reader_run decompress c s (reads chunks)) = fold_left (do_trace decompress c) chunks s.
+  Proof.
+    induction chunks as [|ch rest IH]; intros s; [reflexivity|].
+    cbn [reads map reader_run reader_step fold_left]. fold (reads rest).
+    specialize (IH (do_trace decompress c s ch)).
+    destruct (reader_run decompress c (do_trace decompress c s ch) (reads rest)). exact IH.
+  Qed.
+
+  Lemma try_finish_closed s err : w_closed s = true -> try_finish c s err = s.
+  Proof. intros H. unfold try_finish. rewrite H. reflexivity. Qed.
+
+  Lemma try_finish_closes s err : w_closed (try_finish c s err) = true.
+  Proof.
+    unfold try_finish. destruct (w_closed s) eqn:E; [exact E|].
+    destruct (emit_unfinished (w_dt s)); reflexivity.
+  Qed.
+
+  Lemma reader_closes : forall fl s, w_closed s = true -> fst (reader_run decompress c s (closes fl)) = s.
+  Proof.
+    induction fl as [|f fl IH]; intros s H; [reflexivity|].
+    cbn [closes map reader_run reader_step]. fold (closes fl). rewrite try_finish_closed by exact H.
+    specialize (IH s H). destruct (reader_run decompress c s (closes fl)). exact IH.
+  Qed.
+
+  Definition errk_of (e : ioerr) : errk := match e with IoEOF => ENil | _ => EScripted end.
+
+  Lemma do_trace_closed s ch : w_closed (do_trace decompress c s ch) = w_closed s.
+  Proof. unfold do_trace. destruct (trace decompress c (w_dt s) ch); reflexivity. Qed.
+
+  Lemma reader_chunks_proof : forall chunks last e fl,
+    e <> IoNone ->
+    reader_events decompress c (reads chunks ++ [RRead last e] ++ closes fl) =
+    expected_events decompress c (concat (chunks ++ [last])) (errk_of e).
+  Proof.
+    intros chunks last e fl NE. unfold reader_events.
+    rewrite reader_run_app. pose proof (reader_reads chunks ws_init) as R1.
+    destruct (reader_run decompress c ws_init (reads chunks)) as [s1 r1]. cbn [fst] in R1.
+    rewrite reader_run_app. cbn [reader_run reader_step].
+    set (s2 := match e with
+               | IoNone => do_trace decompress c s1 last
+               | IoEOF => try_finish c (do_trace decompress c s1 last) ENil
+               | IoFail => try_finish c (do_trace decompress c s1 last) EScripted
+               end).
+    assert (S2 : s2 = try_finish c (fold_left (do_trace decompress c) (chunks ++ [last]) ws_init) (errk_of e)).
+    { rewrite fold_left_app. cbn [fold_left]. rewrite <- R1. subst s2. destruct e; [congruence|reflexivity|reflexivity]. }
+    pose proof (reader_closes fl s2) as R3.
+    destruct (reader_run decompress c s2 (closes fl)) as [s3 r3]. cbn [fst] in *.
+    rewrite R3 by (rewrite S2; apply try_finish_closes).
+    rewrite S2. apply finish_events.
+  Qed.
+
+  Lemma reader_close_proof : forall chunks f fl,
+    reader_events decompress c (reads chunks ++ closes (f :: fl)) =
+    expected_events decompress c (concat chunks) (if f then EScripted else EOther).
+  Proof.
+    intros chunks f fl. unfold reader_events.
+    rewrite reader_run_app. pose proof (reader_reads chunks ws_init) as R1.
+    destruct (reader_run decompress c ws_init (reads chunks)) as [s1 r1]. cbn [fst] in R1.
+    cbn [closes map reader_run reader_step]. fold (closes fl).
+    set (s2 := try_finish c s1 (if f then EScripted else EOther)).
+    pose proof (reader_closes fl s2) as R3.
+    destruct (reader_run decompress c s2 (closes fl)) as [s3 r3]. cbn [fst] in *.
+    rewrite R3 by apply try_finish_closes. subst s2. rewrite R1. apply finish_events.
+  Qed.
+
+  (* pass-through: whatever the script, the caller gets the inner results *)
+  Definition rres_of (op : rop) : rres :=
+    match op with RRead data e => ResRead data e | RClose f => ResClose f end.
+  Lemma reader_transparent_proof : forall ops s, snd (reader_run decompress c s ops) = map rres_of ops.
+  Proof.
+    induction ops as [|op ops IH]; intros s; [reflexivity|].
+    cbn [reader_run map].
+    assert (E : snd (reader_step decompress c s op) = rres_of op) by (destruct op; reflexivity).
+    destruct (reader_step decompress c s op) as [s1 r]. cbn [snd] in E. subst r.
+    specialize (IH s1). destruct (reader_run decompress c s1 ops). cbn [snd] in *. rewrite IH. reflexivity.
+  Qed.
+
+  (* ---------- the response writer ---------- *)
+  Definition writes (l : list (bytes * nat)) : list wop := map (fun p => WWrite (fst p) (snd p) false) l.
+  Definition accepted (l : list (bytes * nat)) : list bytes := map (fun p => firstn (snd p) (fst p)) l.
+
+  Lemma writer_run_app : forall a s b,
+    writer_run decompress c s (a ++ b) =
+    let (s1, r1) := writer_run decompress c s a in
+    let (s2, r2) := writer_run decompress c s1 b in (s2, r1 ++ r2).
+  Proof.
+    induction a as [|op a IH]; intros s b.
+    - cbn. destruct (writer_run decompress c s b); reflexivity.
+    - cbn [app writer_run]. destruct (writer_step decompress c s op) as [s1 r].
+      rewrite IH. destruct (writer_run decompress c s1 a) as [s2 rs].
+      destruct (writer_run decompress c s2 b); reflexivity.
+  Qed.
+
+  Lemma writer_writes : forall l s,
+    fst (writer_run decompress c s (writes l)) = fold_left (do_trace decompress c) (accepted l) s.
+  Proof.
+    induction l as [|[data n] rest IH]; intros s; [reflexivity|].
+    cbn [writes accepted map writer_run writer_step fold_left fst snd]. fold (writes rest). fold (accepted rest).
+    specialize (IH (do_trace decompress c s (firstn n data))).
+    destruct (writer_run decompress c (do_trace decompress c s (firstn n data)) (writes rest)). exact IH.
+  Qed.
+
+  Lemma writer_ok_proof : forall l,
+    writer_events decompress c (writes l) = expected_events decompress c (concat (accepted l)) ENil.
+  Proof.
+    intros l. unfold writer_events. rewrite writer_writes. apply finish_events.
+  Qed.
+
+  Lemma writer_fail_proof : forall l data n,
+    writer_events decompress c (writes l ++ [WWrite data n true]) =
+    expected_events decompress c (concat (accepted l ++ [firstn n data])) EScripted.
+  Proof.
+    intros l data n. unfold writer_events. rewrite writer_run_app.
+    pose proof (writer_writes l ws_init) as R1.
+    destruct (writer_run decompress c ws_init (writes l)) as [s1 r1]. cbn [fst] in R1.
+    cbn [writer_run writer_step fst].
+    rewrite try_finish_closed by apply try_finish_closes.
+    rewrite R1. rewrite <- finish_events. rewrite fold_left_app. reflexivity.
+  Qed.
+
+  Definition wres_of (op : wop) : wres := match op with WWrite _ n f => ResWrite n f end.
+  Lemma writer_transparent_proof : forall ops s, snd (writer_run decompress c s ops) = map wres_of ops.
+  Proof.
+    induction ops as [|op ops IH]; intros s; [reflexivity|].
+    cbn [writer_run map].
+    assert (E : snd (writer_step decompress c s op) = wres_of op) by (destruct op; reflexivity).
+    destruct (writer_step decompress c s op) as [s1 r]. cbn [snd] in E. subst r.
+    specialize (IH s1). destruct (writer_run decompress c s1 ops). cbn [snd] in *. rewrite IH. reflexivity.
+  Qed.
+
+  (* ---------- raw tracer ---------- *)
+  Lemma raw_events_proof : forall chunks,
+    raw_events decompress c chunks = expected_events decompress c (concat chunks) ENil.
+  Proof.
+    intros chunks. rewrite <- finish_events. unfold raw_events. rewrite do_trace_all.
+    cbn [ws_init w_dt w_b w_closed]. destruct (feed decompress c dt_init chunks); reflexivity.
+  Qed.
+
+  (* ---------- a single body-end event, whatever the script ---------- *)
+  Definition inv (s : wstate) : Prop :=
+    (w_closed s = false -> b_live (w_b s) = true /\ count_end (b_events (w_b s)) = O) /\
+    (w_closed s = true -> count_end (b_events (w_b s)) = 1%nat).
+
+  Lemma inv_init : inv ws_init.
+  Proof. split; cbn; [auto|discriminate]. Qed.
+
+  Lemma count_end_add_all ts b : count_end (b_events (b_add_all req b ts)) = count_end (b_events b).
+  Proof.
+    destruct (b_live b) eqn:L.
+    - destruct (b_add_all_live req ts b L) as (_ & -> & _).
+      rewrite count_end_app, count_end_number. lia.
+    - rewrite b_add_all_dead by exact L. reflexivity.
+  Qed.
+
+  Lemma inv_do_trace s ch : inv s -> inv (do_trace decompress c s ch).
+  Proof.
+    intros [I0 I1]. unfold do_trace. destruct (trace decompress c (w_dt s) ch) as [d' evs].
+    split; cbn [w_closed w_b]; intros H.
+    - destruct (I0 H) as [L Z]. split; [apply (b_add_all_live req evs _ L)|].
+      rewrite count_end_add_all. exact Z.
+    - rewrite count_end_add_all. exact (I1 H).
+  Qed.
+
+  Lemma inv_try_finish s err : inv s -> inv (try_finish c s err).
+  Proof.
+    intros [I0 I1]. unfold try_finish. destruct (w_closed s) eqn:E; [split; [congruence|intros _; apply I1; reflexivity]|].
+    destruct (I0 eq_refl) as [L Z].
+    destruct (emit_unfinished (w_dt s)) as [d' evs].
+    split; cbn [w_closed w_b]; [discriminate|intros _].
+    destruct (b_add_all_live req evs _ L) as (L' & _ & _).
+    unfold b_add_end. rewrite L'. cbn [negb b_events].
+    rewrite count_end_app, count_end_add_all, Z. reflexivity.
+  Qed.
+
+  Definition finishing (op : rop) : bool :=
+    match op with RRead _ IoNone => false | _ => true end.
+
+  Lemma reader_step_closed s op :
+    w_closed (fst (reader_step decompress c s op)) = w_closed s || finishing op.
+  Proof.
+    destruct op as [data e|f]; cbn [reader_step fst finishing].
+    - destruct e; rewrite ?try_finish_closes, ?do_trace_closed, ?orb_true_r, ?orb_false_r; reflexivity.
+    - rewrite try_finish_closes, orb_true_r. reflexivity.
+  Qed.
+
+  Lemma inv_reader_step s op : inv s -> inv (fst (reader_step decompress c s op)).
+  Proof.
+    intros I. destruct op as [data e|f]; cbn [reader_step fst].
+    - destruct e; auto using inv_do_trace, inv_try_finish.
+    - apply inv_try_finish; exact I.
+  Qed.
+
+  Lemma reader_run_inv : forall ops s, inv s ->
+    inv (fst (reader_run decompress c s ops)) /\
+    w_closed (fst (reader_run decompress c s ops)) = w_closed s || existsb finishing ops.
+  Proof.
+    induction ops as [|op ops IH]; intros s I.
+    - cbn. rewrite orb_false_r. auto.
+    - cbn [reader_run existsb].
+      pose proof (inv_reader_step s op I) as I1. pose proof (reader_step_closed s op) as C1.
+      destruct (reader_step decompress c s op) as [s1 r]. cbn [fst] in *.
+      destruct (IH s1 I1) as [I2 C2].
+      destruct (reader_run decompress c s1 ops) as [s2 rs]. cbn [fst] in *.
+      split; [exact I2|]. rewrite C2, C1, orb_assoc. reflexivity.
+  Qed.
+
+  Lemma reader_single_end_proof : forall ops,
+    count_end (reader_events decompress c ops) = if existsb finishing ops then 1%nat else O.
+  Proof.
+    intros ops. unfold reader_events.
+    destruct (reader_run_inv ops ws_init inv_init) as [[I0 I1] C]. cbn [ws_init w_closed orb] in C.
+    destruct (existsb finishing ops); [apply I1; exact C|apply I0; exact C].
+  Qed.
+
+  Lemma inv_writer_step s op : inv s -> inv (fst (writer_step decompress c s op)).
+  Proof.
+    intros I. destruct op as [data n f]; cbn [writer_step fst].
+    destruct f; auto using inv_do_trace, inv_try_finish.
+  Qed.
+
+  Lemma writer_run_inv : forall ops s, inv s -> inv (fst (writer_run decompress c s ops)).
+  Proof.
+    induction ops as [|op ops IH]; intros s I; [exact I|].
+    cbn [writer_run]. pose proof (inv_writer_step s op I) as I1.
+    destruct (writer_step decompress c s op) as [s1 r]. cbn [fst] in *.
+    specialize (IH s1 I1). destruct (writer_run decompress c s1 ops). exact IH.
+  Qed.
+
+  Lemma writer_single_end_proof : forall ops, count_end (writer_events decompress c ops) = 1%nat.
+  Proof.
+    intros ops. unfold writer_events.
+    pose proof (inv_try_finish _ ENil (writer_run_inv ops ws_init inv_init)) as [_ I1].
+    apply I1. apply try_finish_closes.
+  Qed.
+End Wrap.
+
+(* ---------- consequences for well-formed streams (chunk-free reasoning on the parser) ---------- *)
+Ltac Zify.zify_post_hook ::= Z.to_euclidean_division_equations.
+
+Lemma be_decode_be32 n : n < 4294967296 -> be_decode (be32 n) 0 = n.
+Proof. intros H. unfold be32. cbn [be_decode]. lia. Qed.
+
+Lemma data_indices_number req : forall ts k, data_indices (number req k ts) = seqN k (count_data ts).
+Proof.
+  induction ts as [|[e l|ct] ts IH]; intros k; [reflexivity| |].
+  - cbn [number data_indices]. unfold count_data. cbn [filter length seqN]. f_equal. apply IH.
+  - cbn [number data_indices]. apply IH.
+Qed.
+
+Lemma data_indices_app a b : data_indices (a ++ b) = data_indices a ++ data_indices b.
+Proof. induction a as [|[r i e l|ct|r e] a IH]; cbn [app data_indices]; rewrite ?IH; reflexivity. Qed.
+
+Section Streams.
+  Variable decompress : bytes -> option bytes.
+  Variable c : cfg.
+  Notation parse_all := (fun body => parse decompress c (S (length body)) body).
+
+  Lemma parse_encode fl p rest :
+    blen p < 4294967296 ->
+    parse_all (encode fl p ++ rest) = msg_events decompress c (fl, p) ++ parse_all rest.
+  Proof.
+    intros H. unfold encode, msg_events. cbn [fst snd]. cbv beta.
+    set (R := parse decompress c (S (length rest)) rest).
+    remember (S (length ((fl :: be32 (blen p) ++ p) ++ rest))) as f eqn:Hf.
+    destruct f as [|f]; [discriminate|].
+    unfold be32 in *. cbn [app] in *. cbn [parse].
+    change (be_decode [blen p / 16777216 mod 256; blen p / 65536 mod 256; blen p / 256 mod 256; blen p mod 256] 0)
+      with (be_decode (be32 (blen p)) 0).
+    rewrite be_decode_be32 by exact H.
+    destruct (N.leb_spec (blen p) (blen (p ++ rest))) as [_|Gt]; [|rewrite blen_app in Gt; lia].
+    unfold blen at 3 4. rewrite !Nat2N.id.
+    rewrite firstn_app, firstn_all, Nat.sub_diag, firstn_O, app_nil_r.
+    rewrite skipn_app, skipn_all, Nat.sub_diag, skipn_O. cbn [app].
+    subst R. f_equal. f_equal.
+    apply parse_fuel; [|lia].
+    injection Hf as Hf. cbn [length] in Hf. rewrite app_length in Hf. lia.
+  Qed.
+
+  Lemma parse_messages : forall msgs tail,
+    Forall fits msgs ->
+    parse_all (encode_all msgs ++ tail) = flat_map (msg_events decompress c) msgs ++ parse_all tail.
+  Proof.
+    induction msgs as [|[fl p] msgs IH]; intros tail F; [reflexivity|].
+    inversion F as [|? ? Fm Fr]; subst.
+    unfold encode_all. cbn [map concat flat_map fst snd]. fold (encode_all msgs).
+    rewrite <- !app_assoc. rewrite parse_encode by exact Fm.
+    rewrite (IH tail Fr). reflexivity.
+  Qed.
+
+  Lemma parse_cut fl p j :
+    blen p < 4294967296 -> (0 < j < length (encode fl p))%nat ->
+    parse_all (firstn j (encode fl p)) = partial_events fl (blen p) j.
+  Proof.
+    intros H Hj. unfold encode in *. unfold be32 in *. cbn [app length] in Hj.
+    do 5 (destruct j as [|j]; [first [lia|reflexivity]|]).
+    cbn [app firstn]. cbn [length parse].
+    change (be_decode [blen p / 16777216 mod 256; blen p / 65536 mod 256; blen p / 256 mod 256; blen p mod 256] 0)
+      with (be_decode (be32 (blen p)) 0).
+    rewrite be_decode_be32 by exact H.
+    assert (Lj : length (firstn j p) = j) by (rewrite firstn_length; lia).
+    destruct (N.leb_spec (blen p) (blen (firstn j p))) as [Le|_]; [unfold blen in Le; lia|].
+    unfold partial_events. cbn [Nat.ltb Nat.leb Nat.eqb Nat.sub].
+    destruct j as [|j]; [reflexivity|].
+    destruct p as [|x p]; [cbn in Hj; lia|]. cbn [firstn].
+    unfold blen. cbn [length]. cbn [firstn length] in Lj. rewrite Lj.
+    replace (S j - 0)%nat with (S j) by lia. reflexivity.
+  Qed.
+
+  Lemma count_data_messages : forall msgs,
+    count_data (flat_map (msg_events decompress c) msgs) = length msgs.
+  Proof.
+    induction msgs as [|[fl p] msgs IH]; [reflexivity|].
+    cbn [flat_map]. unfold count_data in *. rewrite filter_app, app_length, IH.
+    unfold msg_events, end_stream_events. cbn [fst snd filter length].
+    destruct (negb (c_req c) && is_end_stream fl); [|reflexivity].
+    destruct p; [reflexivity|]. destruct (shown_content decompress c fl (n :: p)) as [[|? ?]|]; reflexivity.
+  Qed.
+
+  Lemma ndata_count ts : ndata ts = N.of_nat (count_data ts).
+  Proof.
+    induction ts as [|[e l|ct] ts IH]; [reflexivity| |].
+    - cbn [ndata]. unfold count_data in *. cbn [filter length]. lia.
+    - cbn [ndata]. unfold count_data in *. cbn [filter]. exact IH.
+  Qed.
+
+  (* --- statements in terms of the events of ANY chunking --- *)
+  Hypothesis Hstream : c_stream c = true.
+
+  Lemma parse_body_all body : parse_body decompress c body = parse_all body.
+  Proof. unfold parse_body. rewrite Hstream. reflexivity. Qed.
+
+  Lemma one_per_message_proof : forall msgs chunks,
+    Forall fits msgs -> concat chunks = encode_all msgs ->
+    raw_events decompress c chunks =
+    number (c_req c) 0 (flat_map (msg_events decompress c) msgs) ++ [EvEnd (c_req c) ENil].
+  Proof.
+    intros msgs chunks F E. rewrite raw_events_proof. unfold expected_events.
+    rewrite E, parse_body_all. rewrite <- (app_nil_r (encode_all msgs)).
+    rewrite (parse_messages msgs [] F). cbn [parse length]. rewrite app_nil_r. reflexivity.
+  Qed.
+
+  Lemma truncation_proof : forall msgs fl p j chunks,
+    Forall fits msgs -> fits (fl, p) -> (0 < j < length (encode fl p))%nat ->
+    concat chunks = encode_all msgs ++ firstn j (encode fl p) ->
+    raw_events decompress c chunks =
+    number (c_req c) 0 (flat_map (msg_events decompress c) msgs ++ partial_events fl (blen p) j)
+    ++ [EvEnd (c_req c) ENil].
+  Proof.
+    intros msgs fl p j chunks F Fp Hj E. rewrite raw_events_proof. unfold expected_events.
+    rewrite E, parse_body_all, (parse_messages msgs _ F).
+    rewrite (parse_cut fl p j Fp Hj). reflexivity.
+  Qed.
+
+  (* the last complete message is an end-stream message on the response side *)
+  Lemma end_stream_general : forall msgs fl p chunks,
+    Forall fits msgs -> fits (fl, p) ->
+    concat chunks = encode_all msgs ++ encode fl p ->
+    raw_events decompress c chunks =
+    number (c_req c) 0 (flat_map (msg_events decompress c) msgs) ++
+    EvData (c_req c) (N.of_nat (length msgs)) (Some (mk_env fl (blen p))) (blen p) ::
+    number (c_req c) (N.of_nat (length msgs) + 1) (end_stream_events decompress c fl p) ++
+    [EvEnd (c_req c) ENil].
+  Proof.
+    intros msgs fl p chunks F Fp E. rewrite raw_events_proof. unfold expected_events.
+    rewrite E, parse_body_all, (parse_messages msgs _ F).
+    rewrite <- (app_nil_r (encode fl p)), (parse_encode fl p [] Fp). cbn [parse length]. rewrite app_nil_r.
+    rewrite number_app, ndata_count, count_data_messages. rewrite N.add_0_l.
+    unfold msg_events. cbn [fst snd number]. rewrite <- app_assoc. reflexivity.
+  Qed.
+
+  Lemma end_stream_uncompressed_proof : forall msgs fl p chunks,
+    c_req c = false -> Forall fits msgs -> fits (fl, p) -> p <> [] ->
+    is_end_stream fl = true -> is_compressed fl = false ->
+    concat chunks = encode_all msgs ++ encode fl p ->
+    raw_events decompress c chunks =
+    number false 0 (flat_map (msg_events decompress c) msgs) ++
+    [EvData false (N.of_nat (length msgs)) (Some (mk_env fl (blen p))) (blen p); EvEos p; EvEnd false ENil].
+  Proof.
+    intros msgs fl p chunks R F Fp NE ES NC E.
+    rewrite (end_stream_general msgs fl p chunks F Fp E). rewrite R.
+    unfold end_stream_events, shown_content. rewrite R, ES, NC. cbn [negb andb].
+    destruct p as [|x p]; [congruence|]. reflexivity.
+  Qed.
+
+  Lemma end_stream_compressed_proof : forall msgs fl p out chunks,
+    c_req c = false -> c_dec c = true -> Forall fits msgs -> fits (fl, p) -> p <> [] ->
+    is_end_stream fl = true -> is_compressed fl = true ->
+    decompress p = Some out -> out <> [] ->
+    concat chunks = encode_all msgs ++ encode fl p ->
+    raw_events decompress c chunks =
+    number false 0 (flat_map (msg_events decompress c) msgs) ++
+    [EvData false (N.of_nat (length msgs)) (Some (mk_env fl (blen p))) (blen p); EvEos out; EvEnd false ENil].
+  Proof.
+    intros msgs fl p out chunks R D F Fp NE ES CP DE NO E.
+    rewrite (end_stream_general msgs fl p chunks F Fp E). rewrite R.
+    unfold end_stream_events, shown_content. rewrite R, ES, CP, D. cbn [negb andb].
+    destruct p as [|x p]; [congruence|]. rewrite DE. destruct out; [congruence|]. reflexivity.
+  Qed.
+
+  (* undecodable or empty content is not shown, the data event still is *)
+  Lemma end_stream_undecodable_proof : forall msgs fl p chunks,
+    c_req c = false -> c_dec c = true -> Forall fits msgs -> fits (fl, p) ->
+    is_end_stream fl = true -> is_compressed fl = true ->
+    decompress p = None ->
+    concat chunks = encode_all msgs ++ encode fl p ->
+    raw_events decompress c chunks =
+    number false 0 (flat_map (msg_events decompress c) msgs) ++
+    [EvData false (N.of_nat (length msgs)) (Some (mk_env fl (blen p))) (blen p); EvEnd false ENil].
+  Proof.
+    intros msgs fl p chunks R D F Fp ES CP DE E.
+    rewrite (end_stream_general msgs fl p chunks F Fp E). rewrite R.
+    unfold end_stream_events, shown_content. rewrite R, ES, CP, D. cbn [negb andb].
+    destruct p as [|x p]; [reflexivity|]. rewrite DE. reflexivity.
+  Qed.
+End Streams.
+
+(* requests never produce end-stream events; numbering is consecutive for EVERY body *)
+Lemma consecutive_proof : forall decompress c chunks,
+  data_indices (raw_events decompress c chunks) =
+  seqN 0 (count_data (parse_body decompress c (concat chunks))).
+Proof.
+  intros. rewrite raw_events_proof. unfold expected_events.
+  rewrite data_indices_app, data_indices_number. cbn [data_indices]. apply app_nil_r.
+Qed.
+
+Lemma non_stream_proof : forall decompress c chunks,
+  c_stream c = false ->
+  raw_events decompress c chunks =
+  match concat chunks with
+  | [] => [EvEnd (c_req c) ENil]
+  | _ :: _ => [EvData (c_req c) 0 None (blen (concat chunks)); EvEnd (c_req c) ENil]
+  end.
+Proof.
+  intros decompress c chunks H. rewrite raw_events_proof. unfold expected_events, parse_body. rewrite H.
+  destruct (concat chunks); reflexivity.
+Qed.
